@@ -35,6 +35,14 @@ fn main() {
                 eprintln!("unknown check {}", args[2]);
                 std::process::exit(2);
             };
+            // safety watchdog: a run that takes absurdly long is inconclusive (exit 2), never a violation
+            let limit_s: u64 = std::env::var("VERIF_WATCHDOG_S").ok().and_then(|s| s.parse().ok()).unwrap_or(if tier == Tier::Quick { 1500 } else { 6 * 3600 });
+            let id = args[2].clone();
+            std::thread::spawn(move || {
+                std::thread::sleep(std::time::Duration::from_secs(limit_s));
+                println!("INCONCLUSIVE: watchdog fired after {limit_s}s in check {id} (infrastructure, not a violation)");
+                std::process::exit(2);
+            });
             let mut r = Runner::new(&args[2], tier, seed);
             f(&mut r);
             std::process::exit(r.finish());
